@@ -252,6 +252,67 @@ def rotation_pytree_sequence(case):
   return {'evals': evals, 'nontrivial': True, 'outcome': case['seq']}
 
 
+class _JaxProxy:
+  """`jax` as seen by walsh_hadamard.py, with jax.random.uniform / randint / bits answering boundary values (every other
+  attribute is the real one). The rotation's signs must be +-1 for every answer of the generator."""
+
+  def __init__(self, answer):
+    import jax
+
+    class R:
+      def __getattr__(self_, name):
+        return getattr(jax.random, name)
+
+      def uniform(self_, key, shape=(), dtype=None, minval=0.0, maxval=1.0):
+        import jax.numpy as jnp
+        dt = dtype or jnp.float32
+        v = {'zero': 0.0, 'half': 0.5, 'top': float(np.nextafter(np.float32(1.0), np.float32(0.0)))}[answer]
+        return jnp.full(shape, minval + (maxval - minval) * v, dt)
+    self._jax, self.random = jax, R()
+
+  def __getattr__(self, name):
+    return getattr(self._jax, name)
+
+
+def extreme_draws(case):
+  """Boundary answers of the uniform generator (0, exactly 1/2, the largest float below 1) and all-zero inputs: the
+  rotation stays norm preserving and invertible, zero stays zero (never NaN)."""
+  import jax
+  import jax.numpy as jnp
+  from fedjax.aggregators import walsh_hadamard as wh
+  from mc import seams
+  shape = tuple(case['shape'])
+  evals = 0
+  for answer in ('real', 'zero', 'half', 'top'):
+    for zero_input in (False, True):
+      x = np.zeros(shape, np.float32) if zero_input else _rot_input(shape, 3)
+      nc = dict(case, answer=answer, zero_input=zero_input)
+      ctxm = seams.patched(wh, jax=_JaxProxy(answer)) if answer != 'real' else contextlib.nullcontext()
+      jax.clear_caches()   # the module's functions may be jitted: they must be traced again to see the proxy (and the real jax after it)
+      with ctxm:
+        key = jax.random.PRNGKey(5)
+        y, shp = wh.structured_rotation(jnp.asarray(x), key)
+        back = wh.inverse_structured_rotation(y, key, shp)
+      y, back = np.asarray(y, np.float64), np.asarray(back, np.float64)
+      require(bool(np.all(np.isfinite(y))) and bool(np.all(np.isfinite(back))), 'rotation of a finite input is not finite',
+              'finite', [y.tolist()[:4], back.reshape(-1).tolist()[:4]], case=nc)
+      nx, ny = float(np.linalg.norm(x.astype(np.float64))), float(np.linalg.norm(y))
+      require(abs(nx - ny) <= 1e-5 * max(1.0, nx), 'rotation does not preserve the Euclidean norm (a sign is not +-1 / a zero '
+              'input is not mapped to zero)', nx, ny, case=nc)
+      require(back.shape == shape and bool(np.all(np.abs(back - x) <= 4e-5 * max(1.0, float(np.max(np.abs(x)))))),
+              'inverse rotation with the same key does not restore the input', x.tolist(), back.tolist(), case=nc)
+      evals += 1
+  jax.clear_caches()
+  # a parameter tree with an all-zero leaf
+  tree = {'w': jnp.asarray(_rot_input((3, 2), 1)), 'b': jnp.zeros((5,), jnp.float32)}
+  rot, shapes = wh.structured_rotation_pytree(tree, jax.random.PRNGKey(1))
+  back = wh.inverse_structured_rotation_pytree(rot, jax.random.PRNGKey(1), shapes)
+  for k in tree:
+    require(bool(np.all(np.isfinite(np.asarray(rot[k])))) and bool(np.allclose(np.asarray(back[k]), np.asarray(tree[k]), atol=4e-5)),
+            'tree with an all-zero leaf: leaf %r is not restored / not finite' % k, case=case)
+  return {'evals': evals + 1, 'nontrivial': True, 'outcome': list(shape)}
+
+
 def rotation_pytree_containers(case):
   """Parameter trees with empty containers / None entries between the array leaves (an optimizer's EmptyState, a layer
   without parameters): structure, shapes and values are restored leaf-wise."""
@@ -304,7 +365,7 @@ def rotation_pytree_containers(case):
   return {'evals': evals, 'nontrivial': True, 'outcome': case['tree']}
 
 
-SUBS = {'rotation_pytree_containers': rotation_pytree_containers, 'rotation_pytree_sequence': rotation_pytree_sequence, 'transform': transform, 'rotation': rotation, 'rotation_pytree': rotation_pytree}
+SUBS = {'extreme_draws': extreme_draws, 'rotation_pytree_containers': rotation_pytree_containers, 'rotation_pytree_sequence': rotation_pytree_sequence, 'transform': transform, 'rotation': rotation, 'rotation_pytree': rotation_pytree}
 TIMEOUTS = {k: 900 for k in SUBS}
 
 
@@ -332,6 +393,7 @@ def plan(ctx):
   ctx.pmap('rotation', [{'shape': list(s), 'keys': list(range(32 if th else 8)), 'seed': ctx.seed} for s in shapes], chunk=1)
   ctx.pmap('rotation', [{'shape': list(sh), 'keys': list(range(8 if th else 3)), 'seed': ctx.seed, 'keyenv': 'legacy_layout'}
                         for sh in ([(), (2,), (3,), (5,), (8,), (2, 3), (17,)] if th else [(3,), (5,), (2, 3), (8,)])], chunk=2)
+  ctx.pmap('extreme_draws', [{'shape': list(sh)} for sh in ((), (1,), (3,), (8,), (2, 3), (17,))], chunk=2)
   ctx.pmap('rotation_pytree_containers', [{'tree': t, 'keys': [0, 1] if not th else list(range(6)), 'keyenv': ke}
                                           for t in ('empty_tuple_first', 'empty_namedtuple', 'empty_list_dict', 'between',
                                                     'empty_tail', 'none_entries', 'tuple_of_scalars', 'tied', 'tied_list')
